@@ -138,5 +138,31 @@ def check(case, ctx):
         from ..runner import exc_item
         return [exc_item(e, "deserialize")]
     items.extend(diff_canon(before, canon(d2)))
-    # the write must not have changed the source either (cheap sanity; C13 is the real check)
-    return items
+    if items:
+        return items
+    # second phase (round 7): the document is edited AFTER it has been written once (an entity added to the document and to
+    # the first bundle inside it, a value added to an existing identified element); what is written now must read back as
+    # the document as it is now - a text remembered from the first write may not come back
+    from prov.model import ProvElement
+    from ..runner import exc_item
+    edited = 0
+    for scope in [d] + list(d.bundles)[:1]:
+        el = next((r for r in scope.get_records(ProvElement) if r.identifier is not None), None)
+        if el is None:
+            continue
+        try:
+            ns = el.identifier.namespace
+            scope.entity(ns["added_later"])
+            el.add_attributes([(ns["noted_later"], "after")])
+            edited += 1
+        except Exception as e:
+            return [exc_item(e, "edit_after_write")]
+    if not edited:
+        return items
+    ctx.count("edited_after_writing")
+    after = canon(d)
+    try:
+        d3 = ProvDocument.deserialize(content=d.serialize(format="json", **opts), format="json")
+    except Exception as e:
+        return [exc_item(e, "write_or_read_after_edit")]
+    return [dict(i, b="after_edit:" + i.get("b", "?")) for i in diff_canon(after, canon(d3))]
